@@ -265,11 +265,17 @@ func scenarios(thorough bool) []*scenario {
 			}
 		}
 	}
+	// a function that returns at its first call and spins from the second call on (the child VM of an Invoker
+	// is re-used by its later calls)
+	const second = "n++; if n > 1 { for {} }; return 1"
+	for _, pooled := range []bool{true, false} {
+		cvs = append(cvs, childVar{second, pooled, 2, "return 7"})
+	}
 	for _, cv := range cvs {
 		cv := cv
-		src := fmt.Sprintf("param cb\nf := func() { %s }\ncb(f)\n%s", cv.fn, cv.after)
+		src := fmt.Sprintf("param cb\nn := 0\nf := func() { %s }\ncb(f)\n%s", cv.fn, cv.after)
 		bc := compile(src)
-		nonterm := cv.fn == "for {}" || cv.after == "for {}"
+		nonterm := cv.fn == "for {}" || cv.after == "for {}" || cv.fn == second
 		out = append(out, &scenario{
 			key:  fmt.Sprintf("child fn=%q pooled=%v calls=%d after=%q", cv.fn, cv.pooled, cv.calls, cv.after),
 			desc: "T1 vm.Run(script calling a Go callback that runs a script function through Invoker) || T2 vm.Abort()",
@@ -316,6 +322,35 @@ func scenarios(thorough bool) []*scenario {
 					return ugo.Undefined, err
 				}}
 				vsched.Go("run", func() { runVM(vm, 0, nil, cb) })
+				vsched.Go("abort", aborter(vm, 1))
+			},
+		})
+	}
+	// reuse with callbacks: the pooled child VM of the first run is released (possibly aborted) and acquired again
+	// by the second run
+	for _, fn1 := range []string{"for {}", "return 1"} {
+		fn1 := fn1
+		bc1 := compile(fmt.Sprintf("param cb\nf := func() { %s }\ncb(f)\nreturn 7", fn1))
+		bc2 := compile("param cb\nf := func() { return 1 }\ncb(f)\nreturn 7")
+		out = append(out, &scenario{
+			key:  fmt.Sprintf("reuse-child first fn=%q, pooled", fn1),
+			desc: "T1 vm.Run(cb(f1)); vm.SetBytecode(s2).Run(cb(f2)) with pooled child VMs || T2 vm.Abort()",
+			nonterm: []bool{fn1 == "for {}", false}, want: []int64{7, 7},
+			body: func() {
+				vm := ugo.NewVM(bc1)
+				cb := &ugo.Function{Name: "cb", ValueEx: func(c ugo.Call) (ugo.Object, error) {
+					inv := ugo.NewInvoker(c.VM(), c.Get(0))
+					inv.Acquire()
+					defer inv.Release()
+					_, err := inv.Invoke()
+					vsched.Note("invoke-ret", errCode(err))
+					return ugo.Undefined, err
+				}}
+				vsched.Go("run", func() {
+					runVM(vm, 0, nil, cb)
+					vm.SetBytecode(bc2)
+					runVM(vm, 1, nil, cb)
+				})
 				vsched.Go("abort", aborter(vm, 1))
 			},
 		})
